@@ -174,6 +174,34 @@ func c11Laws(c *fw.Ctx, label, side string, af *ast.File, df *dst.File, d2a map[
 			viol("edge-not-preserved", "edge-not-preserved:"+refl.TypeName(p)+">"+refl.TypeName(a), fmt.Sprintf("ast edge %s -> %s has no dst counterpart edge", refl.TypeName(p), refl.TypeName(a)))
 		}
 	}
+	// whole-map laws (every entry, not only the nodes of the two trees): the maps are mutually
+	// inverse except where three ast nodes collapse onto one path-carrying identifier
+	for a, d := range a2d {
+		if refl.IsNil(a) || refl.IsNil(d) {
+			continue
+		}
+		if back, ok := d2a[d]; !ok {
+			viol("map-not-inverse", "map-not-inverse:Dst->Ast-missing:"+refl.TypeName(a), fmt.Sprintf("Dst.Nodes maps an ast %s to a dst %s that is not a key of Ast.Nodes", refl.TypeName(a), refl.TypeName(d)))
+		} else if back != a {
+			if id, isIdent := d.(*dst.Ident); isIdent && id.Path != "" {
+				if sel, ok := back.(*ast.SelectorExpr); ok && (sel.X == a || sel.Sel == a) {
+					continue
+				}
+			}
+			viol("map-not-inverse", "map-not-inverse:Dst->Ast:"+refl.TypeName(a), fmt.Sprintf("Ast.Nodes[Dst.Nodes[a]] != a for an ast %s (entry outside or inside the tree)", refl.TypeName(a)))
+		}
+	}
+	for d, a := range d2a {
+		if refl.IsNil(a) || refl.IsNil(d) {
+			continue
+		}
+		if back, ok := a2d[a]; !ok {
+			viol("map-not-inverse", "map-not-inverse:Ast->Dst-missing:"+refl.TypeName(d), fmt.Sprintf("Ast.Nodes maps a dst %s to an ast %s that is not a key of Dst.Nodes", refl.TypeName(d), refl.TypeName(a)))
+		} else if back != d {
+			viol("map-not-inverse", "map-not-inverse:Ast->Dst:"+refl.TypeName(d), fmt.Sprintf("Dst.Nodes[Ast.Nodes[d]] != d for a dst %s: a stale entry (two dst nodes claim one ast node)", refl.TypeName(d)))
+		}
+	}
+	c.Count(side+":map_entries_checked", int64(len(a2d)+len(d2a)))
 	// keys that are in neither tree: allowed only for detached declarations (counted)
 	extra := 0
 	for k := range a2d {
